@@ -44,6 +44,12 @@ func c11IsLegal(from, to componentstatus.Status) bool {
 
 const c11OKIfStarting = 100
 
+// c11WithCause + status: the same status reported through the error-carrying constructor with a NEW cause each time (a
+// retrying component reports every attempt's own error): a repeat is a repeat whatever error it carries
+const c11WithCause = 200
+
+func c11St(code int) componentstatus.Status { return componentstatus.Status(code % c11WithCause) }
+
 type c11Report struct {
 	Inst int `json:"instance"`
 	St   int `json:"status"` // componentstatus.Status or c11OKIfStarting
@@ -52,6 +58,9 @@ type c11Report struct {
 func (r c11Report) String() string {
 	if r.St == c11OKIfStarting {
 		return fmt.Sprintf("i%d:OKIfStarting", r.Inst)
+	}
+	if r.St >= c11WithCause {
+		return fmt.Sprintf("i%d:%v(new cause)", r.Inst, c11St(r.St))
 	}
 	return fmt.Sprintf("i%d:%v", r.Inst, componentstatus.Status(r.St))
 }
@@ -68,7 +77,7 @@ func c11Model(seq []c11Report, n int) [][]componentstatus.Status {
 			}
 			continue
 		}
-		st := componentstatus.Status(r.St)
+		st := c11St(r.St)
 		if c11IsLegal(cur[r.Inst], st) {
 			cur[r.Inst] = st
 			out[r.Inst] = append(out[r.Inst], st)
@@ -76,6 +85,8 @@ func c11Model(seq []c11Report, n int) [][]componentstatus.Status {
 	}
 	return out
 }
+
+var c11Causes int
 
 type c11Obs struct {
 	delivered [][]componentstatus.Status
@@ -86,6 +97,19 @@ type c11Obs struct {
 func c11Apply(r Reporter, ids []*componentstatus.InstanceID, rep c11Report) {
 	if rep.St == c11OKIfStarting {
 		r.ReportOKIfStarting(ids[rep.Inst])
+		return
+	}
+	if rep.St >= c11WithCause {
+		c11Causes++
+		cause := fmt.Errorf("cause %d", c11Causes)
+		switch c11St(rep.St) {
+		case componentstatus.StatusRecoverableError:
+			r.ReportStatus(ids[rep.Inst], componentstatus.NewRecoverableErrorEvent(cause))
+		case componentstatus.StatusPermanentError:
+			r.ReportStatus(ids[rep.Inst], componentstatus.NewPermanentErrorEvent(cause))
+		default:
+			r.ReportStatus(ids[rep.Inst], componentstatus.NewFatalErrorEvent(cause))
+		}
 		return
 	}
 	r.ReportStatus(ids[rep.Inst], componentstatus.NewEvent(componentstatus.Status(rep.St)))
@@ -249,7 +273,8 @@ func TestVerif(t *testing.T) {
 		return
 	}
 	alpha := []int{int(componentstatus.StatusNone), int(componentstatus.StatusStarting), int(componentstatus.StatusOK), int(componentstatus.StatusRecoverableError),
-		int(componentstatus.StatusPermanentError), int(componentstatus.StatusFatalError), int(componentstatus.StatusStopping), int(componentstatus.StatusStopped), c11OKIfStarting}
+		int(componentstatus.StatusPermanentError), int(componentstatus.StatusFatalError), int(componentstatus.StatusStopping), int(componentstatus.StatusStopped), c11OKIfStarting,
+		c11WithCause + int(componentstatus.StatusRecoverableError), c11WithCause + int(componentstatus.StatusPermanentError), c11WithCause + int(componentstatus.StatusFatalError)}
 	var n int64
 	paths := map[string]bool{}
 	enum := func(instances, depth int) {
